@@ -8,17 +8,21 @@ EXTENDS Integers, Sequences, FiniteSets
 Z2S(zr, zneg) ==
    LET N   == Len(zr)
        cnt == Cardinality({ k \in 1..N : zr[k] < zneg })             \* searchsorted, side = left
-   IN IF cnt = N THEN [K |-> N, an |-> 0, ad |-> 1]                   \* above the top level: held constant
+   IN IF N = 1 THEN [K |-> 1, an |-> IF cnt = 1 THEN 0 ELSE 1, ad |-> 1]   \* a single level: both levels of the pair are that level
+      ELSE IF cnt = N THEN [K |-> N, an |-> 0, ad |-> 1]              \* above the top level: held constant
       ELSE IF cnt = 0 THEN [K |-> 2, an |-> 1, ad |-> 1]             \* below the bottom level: held constant
       ELSE [K |-> cnt + 1, an |-> zr[cnt + 1] - zneg, ad |-> zr[cnt + 1] - zr[cnt]]
+\* 1-based indices of the two levels of the pair (with a single level the lower one is the level itself)
+Upper(r) == r.K
+Lower(r) == IF r.K = 1 THEN 1 ELSE r.K - 1
 
 Clamp(x, lo, hi) == IF x < lo THEN lo ELSE IF x > hi THEN hi ELSE x
 \* the lookup identity of C12:  a z[K-1] + (1-a) z[K] = clamp(-Z)   (multiplied by ad)
 LookupOK(zr, zneg) ==
    LET r == Z2S(zr, zneg) IN
-   /\ r.K >= 2 /\ r.K <= Len(zr)                                      \* both levels of the pair exist (C17)
+   /\ Lower(r) >= 1 /\ Upper(r) <= Len(zr)                             \* both levels of the pair exist (C17)
    /\ r.an >= 0 /\ r.an <= r.ad /\ r.ad > 0                            \* weight in [0, 1]
-   /\ r.an * zr[r.K - 1] + (r.ad - r.an) * zr[r.K] = r.ad * Clamp(zneg, zr[1], zr[Len(zr)])
+   /\ r.an * zr[Lower(r)] + (r.ad - r.an) * zr[Upper(r)] = r.ad * Clamp(zneg, zr[1], zr[Len(zr)])
 
 \* ---- rational s-level depths:  C = cn/cd stretching values, S = unstretched coordinate as rational ----------
 \* rho levels: S_k = -1 + (k - 1/2)/N = (2k - 1 - 2N) / (2N) ;  w levels: S_k = -1 + k/N = (k - N)/N  (k = 0..N)
